@@ -247,6 +247,8 @@ class ExprMixin:
             if ("class_attr:" + attr) in self.reg.specfns:
                 return k(st, self.reg.specfns["class_attr:" + attr](self, st, base))
             raise Unsupported(f"attribute {base.cls}.{attr} has no model ({where})")
+        if isinstance(base, VPy) and base.what == "builtin" and (base.obj, attr) == ("int", "from_bytes"):
+            return k(st, VPy("builtin", "int.from_bytes"))
         if isinstance(base, VPy):
             if base.what == "module":
                 r = self.resolve_in_module(base.obj, attr)
